@@ -175,4 +175,30 @@ def install(kv):
         return None
 
     _analyze.ANALYSIS_THREAD = None
+    if not hasattr(kv, "_real_analyze"):
+        kv._real_analyze = kv.analyze
+        kv._real_analysis_queue = kv.ANALYSIS_QUEUE
     kv.analyze = _analyze
+    kv._stub_analyze = _analyze
+
+
+class FullQueue:
+    """the analysis queue of a busy process: always full (its consumer thread takes one entry per analysis_delay)"""
+
+    def put_nowait(self, item):
+        import queue as _q
+
+        raise _q.Full()
+
+    put = put_nowait
+
+
+def analysis_queue_full(kv, on):
+    """on: the real analyze() with an analysis queue that is always full and no consumer thread; off: back to the no-op"""
+    if on:
+        kv.ANALYSIS_QUEUE = FullQueue()
+        kv._real_analyze.ANALYSIS_THREAD = object()  # "already started"
+        kv.analyze = kv._real_analyze
+    else:
+        kv.ANALYSIS_QUEUE = kv._real_analysis_queue
+        kv.analyze = kv._stub_analyze
